@@ -282,10 +282,12 @@ func runC05(r *an.Run) {
 			if need(o, g, "SpendMultiSig", sm, 1) {
 				a := g.ArgCanon(sm[0])
 				o.Site("%s args=%v", sm[0].String(), a)
-				low := func(s string) string { return strings.ToLower(s) }
-				if !(strings.Contains(low(a[1]), "ourkey") && strings.Contains(low(a[2]), "oursig") && strings.Contains(low(a[3]), "theirkey") && strings.Contains(low(a[4]), "theirsig")) &&
-					!(strings.Contains(a[1], "OurKey") && strings.Contains(a[3], "TheirKey")) {
-					o.FailAt(g.ID+"#SpendMultiSig-pairing", sm[0].Where(), "SpendMultiSig must receive (script, ourKey, ourSig, theirKey, theirSig); got %v", a)
+				// each key with the signature made under it: ours is the signer's
+				// result, theirs the stored commit signature
+				okKeys := strings.Contains(a[1], "OurKey") && strings.Contains(a[3], "TheirKey")
+				okSigs := strings.Contains(a[2], "SignOutputRaw(") && strings.Contains(a[4], "ParseDERSignature(") && strings.Contains(a[4], ".CommitSig")
+				if !okKeys || !okSigs {
+					o.FailAt(g.ID+"#SpendMultiSig-pairing", sm[0].Where(), "SpendMultiSig must receive (script, ourKey, our signer's signature, theirKey, the parsed stored commit signature); got %v", a)
 				}
 			}
 		})
